@@ -295,3 +295,20 @@ MANIFEST_TEXT["C19"] = dict(engine="E-hist", design_ref="DESIGN.md §4 C19",
     technique="explicit-state exploration to a fixpoint of the (support subset, built|loaded) graph on the real bitvector; support-free composite files produced by an independent codec; skip_option under short reads",
     level_text="All 16 states and 80 transitions per bitvector for every bitvector up to 7/9 bits and multi-regime representatives; support-free sparse / wavelet-matrix files at every admissible parameter; skip_option for every catalogue value x 7 reader chunk sizes.",
     level_note="The state graph is finite and explored completely; the input set is bounded as stated.")
+
+PROPS["C07"] = dict(
+    driver="c07", builds=["rel", "dbg"], level="exploration",
+    rule="E-input with an independent codec written from SERIALIZATION.md alone (harness/vcore/src/spec.rs, no call into the library). Direction 1: every value of the extended C06 catalogue, every RawVector / BitVector (rotating support subsets) / "
+         "SparseVector / RLVector of <= N bits, sparse vectors at every low width 1..40 with universes that are and are not multiples of 2^w, run-length vectors with 1/8/9/many blocks and 2^60-scale magnitudes, and every wavelet matrix of the scopes "
+         "(plus lengths at and around powers of two) is serialized by the library and decoded by the codec: same logical content, reader ends exactly at the end, and every 'must' holds (little-endian whole elements, zero padding, zero unused bits, "
+         "stored ones = actual, exactly one bucket per universe slice, w >= 1, 4-bit units with whole runs per 64-unit block, zero padding only in closed blocks and none in the final block, maximal runs, samples per block at minimal width, data width 4, "
+         "wavelet-matrix width = bit_len(max), first[v] = first position or len, minimal width of first). Direction 2: files encoded by the codec with every admissible writer choice - all support structures absent, EVERY low width 1..bit_len(n)+1 for "
+         "sparse vectors, every sample width from minimal to 64 for run-length vectors - must load and answer the full query sets (and equal the built value where the document determines the content). Greedy block packing is counted, not required. Distinct by hashed case.",
+    bounds={"quick": "N=10 (direction 1), 8 (direction 2); WM scopes (1,8) (2,5) (3,3) (4,2)", "thorough": "N=12 / 10; WM scopes (1,9) (2,6) (3,4) (4,3); all 64 sample widths for every vector"},
+    require_counters={"quick": {"direction1_library_written_files": 1000, "direction2_document_written_files": 1000}, "thorough": {"direction1_library_written_files": 1000, "direction2_document_written_files": 1000}},
+    assumptions=[HOOK_ASSUMPTION, MODEL_ASSUMPTION, "my reading of SERIALIZATION.md as implemented in spec.rs; rank/select support structures are implementation-dependent per the document and only checked for whole elements"],
+)
+MANIFEST_TEXT["C07"] = dict(engine="E-input", design_ref="DESIGN.md §4 C07",
+    technique="bounded exhaustive input enumeration with an independent codec of the published format: library-written files decoded by the codec, codec-written files (all admissible writer choices) loaded and queried by the library",
+    level_text="Both directions for every documented type over all small structures and boundary-directed families; this is the only check that a change applied symmetrically to serialize and load cannot hide from.",
+    level_note="Trusts the independent codec as a faithful reading of the document.")
